@@ -367,7 +367,24 @@ class Check:
         self.broken = []           # names of theorems / correspondences that no longer check
 
     # ---- proofs ----
+    def translate(self):
+        """Regenerate every source-derived Coq file (T1 functions, T2 constants, structural facts) from /repo's working
+        tree.  A generator that cannot find its anchor leaves the previous file in place, which would let the theorems be
+        checked against what the code used to say: that is reported as a broken tie, never passed over."""
+        import gen
+        with Lock("gen"):
+            for name, fn, key in (("T1 function translator", gen.gen_funs, "t1_failed"), ("T2 constants", gen.gen_consts, "t2_failed"), ("T2 structural facts", gen.gen_facts, "facts_failed")):
+                try:
+                    _, notes = fn()
+                except Exception as e:          # a generator that crashes has not regenerated anything
+                    self.broken.append("translator (%s) failed: %r" % (name, e))
+                    continue
+                if notes.get(key):
+                    self.broken.append("translator (%s) could not regenerate %s from the source: the generated Coq file is stale" % (name, notes[key]))
+                self.cov.setdefault("translators", {})[name] = "ok" if not notes.get(key) else "stale: %s" % notes[key]
+
     def prove(self, prop_file, gen_obligations=0):
+        self.translate()
         ok, theorems, assum, out = coq_obligations(prop_file)
         hyg = coq_hygiene()
         self.cov["checker_cmd"] = "make -k -j16 Properties/%s.vo (coqc 8.16.1, full .vo build) + Print Assumptions per theorem + hygiene grep" % prop_file
